@@ -33,4 +33,6 @@ var verifHarnesses = map[string]func(){
 	"VerifC16Allocate": VerifC16Allocate,
 	"VerifC03TopNStep": VerifC03TopNStep,
 	"VerifC13Frame": VerifC13Frame,
+	"VerifC01QueueVSC": VerifC01QueueVSC,
+	"VerifC01SendVSC": VerifC01SendVSC,
 }
